@@ -86,8 +86,10 @@ pub fn build_output(
     let mut overlap_checker = util::OverlapChecker::new();
 
     fill_banks(
+        report,
+        decls,
         defs,
-        &mut output);
+        &mut output)?;
 
     let mut iter = asm::ResolveIterator::new(
         ast,
@@ -249,8 +251,11 @@ pub fn build_output(
 
 
 fn fill_banks(
+    report: &mut diagn::Report,
+    decls: &asm::ItemDecls,
     defs: &asm::ItemDefs,
     output: &mut util::BitVec)
+    -> Result<(), ()>
 {
     for i in 0..defs.bankdefs.defs.len()
     {
@@ -268,6 +273,17 @@ fn fill_banks(
                 continue;
             }
 
+            let maybe_end = offset.checked_add(size);
+
+            if maybe_end.map_or(true, |end| end as u64 > util::BIGINT_MAX_BITS)
+            {
+                report.error_span(
+                    "output is out of supported range",
+                    decls.bankdefs.get(bankdef.item_ref).span);
+
+                return Err(());
+            }
+
             let highest_position = offset + size - 1;
 
             if output.len() <= highest_position
@@ -276,6 +292,8 @@ fn fill_banks(
             }
         }
     }
+
+    Ok(())
 }
 
 
@@ -334,6 +352,22 @@ fn check_bank_output(
     
             report.pop_parent();
     
+            return Err(());
+        }
+    }
+
+    if let (true, Some(output_offset)) = (write, bankdef.output_offset)
+    {
+        let maybe_end = output_offset
+            .checked_add(ctx.bank_data.cur_position)
+            .and_then(|p| p.checked_add(size));
+
+        if maybe_end.map_or(true, |end| end as u64 > util::BIGINT_MAX_BITS)
+        {
+            report.error_span(
+                "output is out of supported range",
+                span);
+
             return Err(());
         }
     }
